@@ -249,6 +249,24 @@ def constraint_sequences():
     return [[add, drop], [nn, drop], [drop, add], [drop], [add, nn, drop]]
 
 
+def together_spec():
+    spec = optrig.start_spec()
+    spec['apps'][0]['models'][0]['unique_together'] = [['a', 'b']]
+    return spec
+
+
+def constraint_after_rename_sequences():
+    """a model with unique_together: one of the pair's columns is renamed, then a plain UniqueConstraint over the same
+    columns is added (and the addition alone, and after an unrelated rename): what the addition costs must not depend
+    on bookkeeping the rename left behind"""
+    rn = lambda old, new: {'t': 'RenameField', 'model': 'Alpha', 'old': old, 'new': new, 'db_column': None, 'db_table': None}
+    uq = lambda *fields: {'t': 'ChangeMeta', 'model': 'Alpha', 'prop': 'constraints',
+                          'py_value': [{'type': 'UniqueConstraint', 'name': 'alpha_pair_uniq', 'fields': list(fields)}]}
+    return [[rn('b', 'bb'), uq('a', 'bb')], [uq('a', 'b')], [rn('a', 'aa'), uq('aa', 'b')],
+            [{'t': 'ChangeField', 'model': 'Alpha', 'field': 'b', 'ftype': None, 'initial': None,
+              'attrs': [['db_column', '"b_col"']]}, uq('a', 'b')]]
+
+
 def restated_meta_sequences():
     """the same Meta value stated by two evolutions of one batch (each carries the full list): the second statement
     changes nothing and must cost nothing, with or without another mutation in between"""
@@ -298,7 +316,7 @@ def run(ctx):
     ir3 = list(optrig.valid_sequences(sig, ira, 3))
     ctx.rng.shuffle(ir3)
     ir += ir3[:50 if quick else 2000]
-    work = [(unique_spec(), q) for q in unique_rename_sequences()] + [(constraint_spec(), q) for q in constraint_sequences()] + [(spec, q) for q in restated_meta_sequences()] + \
+    work = [(unique_spec(), q) for q in unique_rename_sequences()] + [(constraint_spec(), q) for q in constraint_sequences()] + [(together_spec(), q) for q in constraint_after_rename_sequences()] + [(spec, q) for q in restated_meta_sequences()] + \
         [(spec, q) for q in meta_sequences() + reuse_sequences() + rebuild_then_meta_sequences() + rename_after_rebuild_sequences()] + [(spec2, q) for q in rel] + [(spec, q) for q in ir] + \
         [(spec, q) for q in seqs]
     merge_witness = None
